@@ -335,3 +335,50 @@ func M_strings_ReplaceAll(s, old, new string) string {
 		s = s[i+len(old):]
 	}
 }
+
+// all non-overlapping leftmost matches of <lead>\{[^{}]*\} as [start,end) pairs
+func findAllBraced(lead byte, s string, n int) [][]int {
+	var out [][]int
+	pos := 0
+	for n < 0 || len(out) < n {
+		m := FindBraced(lead, s[pos:])
+		if m == "" {
+			break
+		}
+		i := M_strings_Index(s[pos:], m) + pos
+		out = append(out, []int{i, i + len(m)})
+		pos = i + len(m)
+	}
+	return out
+}
+
+func leadOf(re *string) byte {
+	switch *re {
+	case patQuote:
+		return '$'
+	case patExpr:
+		return '#'
+	}
+	Unmodelled("regexp: pattern not modelled")
+	return 0
+}
+
+func M_regexp_Regexp_FindAllStringIndex(re *string, s string, n int) [][]int {
+	return findAllBraced(leadOf(re), s, n)
+}
+
+func M_regexp_Regexp_FindAllString(re *string, s string, n int) []string {
+	var out []string
+	for _, m := range findAllBraced(leadOf(re), s, n) {
+		out = append(out, s[m[0]:m[1]])
+	}
+	return out
+}
+
+func M_regexp_Regexp_FindStringIndex(re *string, s string) []int {
+	m := findAllBraced(leadOf(re), s, 1)
+	if len(m) == 0 {
+		return nil
+	}
+	return m[0]
+}
